@@ -37,12 +37,20 @@ type efCall struct {
 	workY   int
 	postY   int
 	skip    bool
-	invoked int64
+	dual    bool // Options only: resolve is called from two goroutines at once, with different values
+	// many-keys scenario: the work function of this call returns only after the key burst has drained and the
+	// follow-up call has been announced / this call is made only once the burst has drained
+	waitBurst  bool
+	afterBurst bool
+	invoked    int64
 	got     *bigbuff.ExclusiveOutcome
 	nGot    int
 	closed  bool
 	ran     int64 // how many times its closure was executed
 }
+
+// efRes is what a dual-resolving work function resolves with: both goroutines name the execution, each its own variant
+type efRes struct{ exec, variant int }
 
 type efExec struct {
 	id           int
@@ -75,21 +83,43 @@ func TestExclFree(t *testing.T) {
 				}
 				if c.style == "Options" {
 					c.skip = rapid.IntRange(0, 4).Draw(t, "skip") == 0
+					c.dual = !c.skip && rapid.IntRange(0, 3).Draw(t, "dualResolve") == 0
 				}
 				cs = append(cs, c)
 			}
 			calls = append(calls, cs)
+		}
+		// many keys at once (one case in eight): while a slow work function runs on key 0, 64-120 other keys are
+		// all present at the same time and then drain; afterwards key 0 is called again while the slow one still runs
+		burstN := 0
+		if rapid.IntRange(0, 7).Draw(t, "keyBurst") == 0 {
+			burstN = rapid.IntRange(64, 120).Draw(t, "burstKeys")
+			slow := &efCall{g: nG, key: 0, style: rapid.SampledFrom([]string{"Call", "CallAsync", "Start", "Options"}).Draw(t, "slowStyle"), waitBurst: true,
+				postY: rapid.SampledFrom([]int{0, 3}).Draw(t, "slowPostY"), workY: rapid.SampledFrom([]int{20, 60, 200}).Draw(t, "slowTail")}
+			follow := &efCall{g: nG + 1, key: 0, style: rapid.SampledFrom([]string{"Call", "CallAsync", "Start", "Options"}).Draw(t, "followStyle"), afterBurst: true}
+			// key 0 belongs to the slow call and its follow-up (no other closure may be the one that gets executed)
+			if nKeys < 2 {
+				nKeys = 2
+			}
+			for _, cs := range calls {
+				for _, c := range cs {
+					if c.key == 0 {
+						c.key = 1 + c.idx%(nKeys-1)
+					}
+				}
+			}
+			calls = append(calls, []*efCall{slow}, []*efCall{follow})
 		}
 		hookY := map[int]int{
 			bigbuff.VerifExclRunnerStart: rapid.SampledFrom([]int{0, 0, 1, 3, 10}).Draw(t, "hookRunner"),
 			bigbuff.VerifExclAfterWork:   rapid.SampledFrom([]int{0, 0, 1, 3, 10}).Draw(t, "hookAfter"),
 		}
 		var trace []string
-		trace = append(trace, fmt.Sprintf("keys=%d hooks=%v", nKeys, hookY))
+		trace = append(trace, fmt.Sprintf("keys=%d hooks=%v burstKeys=%d", nKeys, hookY, burstN))
 		for g, cs := range calls {
 			var d []string
 			for _, c := range cs {
-				d = append(d, fmt.Sprintf("%s(k%d,w=%v,y=%d/%d/%d,skip=%v)", c.style, c.key, c.wait, c.preY, c.workY, c.postY, c.skip))
+				d = append(d, fmt.Sprintf("%s(k%d,w=%v,y=%d/%d/%d,skip=%v,dual=%v,slow=%v,follow=%v)", c.style, c.key, c.wait, c.preY, c.workY, c.postY, c.skip, c.dual, c.waitBurst, c.afterBurst))
 			}
 			trace = append(trace, fmt.Sprintf("g%d=%v", g, d))
 		}
@@ -114,6 +144,10 @@ func TestExclFree(t *testing.T) {
 		keys := []any{nil, "a", 7}
 		rapid.SyncTest(t, func(t *rapid.T) {
 			var e bigbuff.Exclusive
+			slowRunning := make(chan struct{}) // the slow work function has started
+			burstDone := make(chan struct{})   // every burst key has come and gone
+			followNow := make(chan struct{})   // the follow-up call is about to be made
+			var slowOnce, followOnce sync.Once
 			body := func(c *efCall, work bool, resolve func(any, error)) (any, error) {
 				atomic.AddInt64(&c.ran, 1)
 				if n := inKey[c.key].Add(1); n > 1 {
@@ -126,11 +160,35 @@ func TestExclFree(t *testing.T) {
 				ex.id = len(execs)
 				execs = append(execs, ex)
 				mu.Unlock()
+				if c.waitBurst {
+					slowOnce.Do(func() { close(slowRunning) })
+					<-burstDone
+					<-followNow
+				}
 				for i := 0; i < c.workY; i++ {
 					runtime.Gosched()
 				}
 				if work {
-					if !c.skip {
+					if c.dual {
+						// two goroutines released together both resolve, each with its own value: only one of them
+						// may count, and it must count for every caller
+						var ready, dwg sync.WaitGroup
+						var goNow atomic.Bool
+						ready.Add(2)
+						dwg.Add(2)
+						for v := 1; v <= 2; v++ {
+							go func(v int) {
+								defer dwg.Done()
+								ready.Done()
+								for !goNow.Load() {
+								}
+								resolve(efRes{ex.id, v}, nil)
+							}(v)
+						}
+						ready.Wait()
+						goNow.Store(true)
+						dwg.Wait()
+					} else if !c.skip {
 						resolve(ex.id, nil)
 					}
 					resolvedNotReturned[c.key].Add(1)
@@ -158,6 +216,10 @@ func TestExclFree(t *testing.T) {
 					for _, c := range calls[g] {
 						for i := 0; i < c.preY; i++ {
 							runtime.Gosched()
+						}
+						if c.afterBurst {
+							<-burstDone
+							followOnce.Do(func() { close(followNow) })
 						}
 						k := keys[c.key]
 						value := func() (any, error) { return body(c, false, nil) }
@@ -194,6 +256,40 @@ func TestExclFree(t *testing.T) {
 						}
 					}
 				}(g)
+			}
+			if burstN > 0 {
+				wg.Add(1)
+				go func() {
+					defer wg.Done()
+					defer func() {
+						if r := recover(); r != nil {
+							mu.Lock()
+							panics = append(panics, fmt.Sprintf("burst: %v", r))
+							mu.Unlock()
+						}
+					}()
+					<-slowRunning
+					started := make(chan struct{}, burstN)
+					release := make(chan struct{})
+					var bw sync.WaitGroup
+					for i := 0; i < burstN; i++ {
+						bw.Add(1)
+						go func(i int) {
+							defer bw.Done()
+							// keys are independent: all burst functions are inside their work at the same time
+							_, _ = e.Call(1000+i, func() (any, error) { started <- struct{}{}; <-release; return nil, nil })
+						}(i)
+					}
+					for i := 0; i < burstN; i++ {
+						<-started
+					}
+					close(release)
+					bw.Wait()
+					close(burstDone)
+				}()
+			} else {
+				close(burstDone)
+				close(followNow)
 			}
 			wg.Wait()
 			// Start-style work may still be pending or running: let every wait elapse and everything finish
@@ -265,6 +361,7 @@ func TestExclFree(t *testing.T) {
 		nCalls := 0
 		coalesced := false
 		byExec := map[int]int{}
+		variantOf := map[int]int{}
 		for _, cs := range calls {
 			for _, c := range cs {
 				nCalls++
@@ -305,11 +402,22 @@ func TestExclFree(t *testing.T) {
 					continue
 				}
 				id, isInt := c.got.Result.(int)
+				variant := 0
+				if r, ok := c.got.Result.(efRes); ok {
+					id, variant, isInt = r.exec, r.variant, true
+				}
 				if !isInt || id < 0 || id >= len(execs) {
 					fail("C10/wrong-outcome", "call g%d#%d (%s) received %v/%v which no execution resolved", c.g, c.idx, c.style, c.got.Result, c.got.Error)
 					continue
 				}
 				ex := execs[id]
+				if v0, seen := variantOf[id]; seen && v0 != variant {
+					fail("C10/coalesced-different-results", "two calls answered by execution e%d received different results (variants %d and %d of a work function that resolved twice concurrently)", id, v0, variant)
+				}
+				variantOf[id] = variant
+				if (variant != 0) != ex.fnOf.dual {
+					fail("C10/wrong-outcome", "call g%d#%d received %v, which execution e%d never resolved with", c.g, c.idx, c.got.Result, id)
+				}
 				byExec[id]++
 				if byExec[id] >= 2 {
 					coalesced = true
@@ -348,6 +456,15 @@ func TestExclFree(t *testing.T) {
 			nt = coalesced
 		}
 		cls := []string{fmt.Sprintf("keys:%d", nKeys)}
+		if burstN > 0 {
+			cls = append(cls, "many-keys-burst")
+		}
+		for _, ex := range execs {
+			if ex.fnOf.dual {
+				cls = append(cls, "dual-resolve")
+				break
+			}
+		}
 		if coalesced {
 			cls = append(cls, "coalesced")
 		}
